@@ -42,6 +42,7 @@ class _Future(Future):
         super(_Future, self).__init__()
         self._me_done_callbacks = []
         self._me_lock = RLock()
+        self._me_in_cancel = False
 
     def _me_invoke_callbacks(self):
         for callback in self._me_done_callbacks:
@@ -70,14 +71,33 @@ class _Future(Future):
                 return True
             if self.done():
                 return False
-            if not self._me_cancel():
-                return False
+            self._me_in_cancel = True
+            try:
+                if not self._me_cancel():
+                    return False
+            finally:
+                self._me_in_cancel = False
             out = super(_Future, self).cancel()
             if out:
                 self.set_running_or_notify_cancel()
         if out:
             self._me_invoke_callbacks()
         return out
+
+    def _me_delegate_cancelled(self):
+        # The future we depend on was cancelled. If that happened because of
+        # our own cancel() (which is still in progress, further up the stack),
+        # there is nothing to do; but if somebody else cancelled it behind our
+        # back, nothing will ever complete us, so become cancelled too.
+        out = False
+        with self._me_lock:
+            if self._me_in_cancel or self.done():
+                return
+            out = super(_Future, self).cancel()
+            if out:
+                self.set_running_or_notify_cancel()
+        if out:
+            self._me_invoke_callbacks()
 
     def _me_cancel(self):
         raise NotImplementedError(
